@@ -91,4 +91,22 @@ Ending(o) == IF o.crlf THEN <<CR, LF>> ELSE <<LF>>
 \* fill shortcut (fill.rs:42)
 FillFast(s, o) == ByteLen(s) < o.width /\ ~Contains(s, LF) /\ Len(o.ii) = 0
 FillFF(s, o, oppss) == IF FillFast(s, o) THEN TrimEndSpaces(s) ELSE Join(LineStrings(WrapFF(s, o, oppss)), Ending(o))
+
+(* ---------- fill_inplace (fill.rs:120-153) ---------- *)
+\* positions (1-based, in the whole text) at which a ' ' is overwritten with '\n': for every line of
+\* the first-fit arrangement of a paragraph except the last, the final character of the whitespace
+\* of the line's last word
+InplaceParaIdx(line, base, width) ==
+  LET ws == AsciiWordsOp(line)
+      arr == FirstFit(Frags(ws), <<width>>)
+  IN {base + ws[arr[k][2]].b - 1 : k \in 1..(Len(arr) - 1)}
+RECURSIVE InplaceIdxAcc(_, _, _, _, _)
+InplaceIdxAcc(s, ps, width, k, acc) ==
+  IF k > Len(ps) THEN acc
+  ELSE InplaceIdxAcc(s, ps, width, k + 1, acc \cup InplaceParaIdx(SubSeq(s, ps[k][1], ps[k][2]), ps[k][1] - 1, width))
+InplaceIdx(s, width) == InplaceIdxAcc(s, SplitCharRanges(s, LF), width, 1, {})
+FillInplaceOp(s, width) == LET idx == InplaceIdx(s, width) IN [i \in 1..Len(s) |-> IF i \in idx THEN LF ELSE s[i]]
+\* the options fill_inplace documents: width, break_words off, LF, ASCII separator, first-fit, no hyphenation
+InplaceOpts(width) == [width |-> width, ii |-> <<>>, si |-> <<>>, bw |-> FALSE, sep |-> "ascii", splitter |-> "none",
+                       alg |-> "ff", pen |-> DefaultPen, crlf |-> FALSE]
 =============================================================================
